@@ -122,6 +122,7 @@ from dataclasses import dataclass, field
 from typing import *
 from apischema import serialized, Undefined, UndefinedType, alias
 
+TM = TypeVar("TM")
 def h_str(error: Exception, obj: Any, alias: str) -> str: return "error:" + alias
 def h_undef(error: Exception, obj: Any, alias: str) -> UndefinedType: return Undefined
 def h_raise(error: Exception, obj: Any, alias: str) -> NoReturn: raise error
@@ -133,7 +134,9 @@ HANDLERS = [None, None, "None", "None", "h_str", "h_undef", "h_raise", "h_optint
 
 
 def gen_method_class(rnd, i):
-    lines = ["@dataclass", f"class M{i}:", "    x: int"]
+    # (some owners are generic and used through a parametrized alias M[int]: the types of the methods are those of the specialised class)
+    generic = rnd.random() < 0.3
+    lines = ["@dataclass", f"class M{i}" + ("(Generic[TM]):" if generic else ":"), "    x: int"] + (["    extra: Optional[TM] = None"] if generic else [])
     for j in range(rnd.randint(1, 3)):
         rt, body = rnd.choice(RETURNS); h = rnd.choice(HANDLERS); raises = rnd.random() < 0.6; prop = rnd.random() < 0.3
         args = []
@@ -142,7 +145,7 @@ def gen_method_class(rnd, i):
         lines.append(f"    @serialized" + (f"({', '.join(args)})" if args else ""))
         if prop: lines.append("    @property")
         lines += [f"    def m{j}(self) -> {rt}:"] + ([f"        if self.x < 0: raise RuntimeError('negative')"] if raises else []) + [f"        return {body}"]
-    return f"M{i}", lines
+    return f"M{i}" + ("[int]" if generic else ""), lines
 
 
 def run_method_schema(rnd, seed, budget, hist, distinct, build_module):
@@ -155,7 +158,7 @@ def run_method_schema(rnd, seed, budget, hist, distinct, build_module):
     mod = build_module(METH_HEADER + "\n" + "\n".join(l for _, ls in classes for l in ls + [""]), f"c07meth_{seed}")
     failures, n = [], 0
     for cname, lines in classes:
-        cls = getattr(mod, cname)
+        cls = eval(cname, vars(mod))
         for x in (-3, -2, 0, 1, 2, 3, 4):
             en = rnd.random() < 0.3; n += 1
             distinct.add(case_hash("meth", lines, x, en))
